@@ -49,6 +49,8 @@ def run(F, rep, tier):
     c02.copy_discipline(F, rep, only_generalised=True)
     # shape checks on a value typed through an annotation need the named declaration to be known at that point
     c03.declared_types_known(F, rep)
+    # a shape requirement (field, variant, index) recorded on a node survives that node being unified with another
+    c03.unification_core(F, rep)
 
 
 def blob_arm(F, rep):
